@@ -205,7 +205,12 @@ PROPS = {
         "rule": "as C09 plus: JUDGEFMT11 (every line of the result is indented by a whole number of units; `null` only when nothing changes, an "
                 "edit only when something changes), PROPFMTIDEM (format twice: second answer null; implementation and model), PROPFMTCANON "
                 "(two random layouts of one token sequence format to the same text; implementation and model). " + TEXT_RULE,
-        "unproved_parts": ["format_idempotent and layout_independent are evaluated on implementation and model on every run, not yet theorems"],
+        "unproved_parts": ["layout_independent IS a theorem for all lexically valid texts (the derivation and the printed text are functions "
+                           "of the token types alone: any two layouts of the same tokens format identically); format_idempotent_partial / "
+                           "second_format_is_null ARE theorems for every valid text without comments (the printed text lexes, parses to "
+                           "the same program and is printed again unchanged, so the second request answers null); texts with comments "
+                           "are evaluated on every run (PROPFMTIDEM, PROPFMTCANON), not theorems; CRLF inside comment bodies changes "
+                           "the comment token and is outside layout_independent"],
     },
     "C12": {
         "rule": FEAT_RULE + "GOTO decl/typedef/impl (implementation vs handler model) and SPECGOTO (implementation vs the independent "
